@@ -243,6 +243,9 @@ class amg {
         const matrix& system_matrix() const {
             return *system_matrix_ptr();
         }
+#ifdef AMGCL_VERIF
+    friend struct ::amgcl::verif::access;
+#endif
     private:
         struct level {
             ptrdiff_t nrows, nnz;
